@@ -34,6 +34,21 @@ def main():
                                                                     stiff_states=out["sorted_states"][:1]))
                 out["jax"] = digest(impl.gen_python(ode, schemes=["explicit_euler"], backend="jax"))
                 out["c"] = digest(cback.gen_c(ode, schemes=["generalized_rush_larsen"]))
+                # the sub-models of a split: their missing-variable tables (in slot order) and code
+                subs = []
+                comps = list(ode.components)
+                if len(comps) > 1:
+                    for comp in sorted(comps, key=lambda c_: c_.name)[:3]:
+                        for half, build in (("to_ode", lambda: comp.to_ode()), ("minus", lambda: ode - comp)):
+                            try:
+                                sub = build()
+                                if not sub.states:
+                                    continue
+                                table = sorted(sub.missing_variables.items(), key=lambda kv: kv[1])
+                                subs.append([comp.name, half, table, digest(impl.gen_python(sub, schemes=["explicit_euler"]))])
+                            except Exception as ex2:  # noqa: BLE001
+                                subs.append([comp.name, half, "exception", type(ex2).__name__])
+                out["sub_models"] = subs
         except Exception as ex:  # noqa: BLE001
             out["exception"] = type(ex).__name__ + ": " + str(ex)[:100]
         print(json.dumps(out, sort_keys=True))
